@@ -138,9 +138,14 @@ def gen_plan(seed, tier, index=0, avoid=()):
             main.append({"op": "send", "timeout": rng.choice((0.01, None))})
     # timed environment: user typing and signals while the app runs / is blocked
     nenv = rng.choice((0, 1, 2, 4, 8)) if faulty else rng.choice((0, 1, 2))
+    storm = faulty and rng.random() < 0.15
+    if storm:
+        nenv += rng.randint(3, 10)
     for _ in range(nenv):
         t = round(rng.uniform(0.0, 6.0), 4)
         k = rng.random()
+        if storm:
+            k = 0.6 + 0.4 * k
         if k < 0.6 or not faulty:
             data = b"".join(_burst(rng, mix, _burst_size(rng, big)))
             env.append({"t": t, "kind": "arrive", "data": data.hex()})
@@ -334,6 +339,8 @@ class Model:
         self.req_reads = []
         self.serial = 0
         self.event_serials = {}          # serial -> ("event"|"ts"|"sched", src)
+        self.ts_completed_seq = {}       # serial -> log sequence number when its callback had returned
+        self.arrival_seq = None          # log sequence number when the tty queue last went from empty to non-empty
         self.boundaries = {0}            # offsets in the tty stream at which a typed key ends
         self.arrived_total = 0
         self.tty_read_total = 0
@@ -445,6 +452,8 @@ def _execute(p, s, res):
             note_arrival(data)
         if len(data) > 1000:
             world.probe("multi_kb_burst")
+        if not len(s.tty.inq):
+            M.arrival_seq = world.log.n
         kernel.arrive(s.fd, data)
     world.env_handlers["arrive"] = env_arrive
 
@@ -514,6 +523,7 @@ def _execute(p, s, res):
         ts_cbs[k](src=k, n=n)
         if n not in M.returned_serials:      # (a request may already have returned it)
             M.ts_completed.append(n)
+            M.ts_completed_seq[n] = world.log.n
         world.log.add("ts_done", who, k, n)
 
     def call_event(who):
@@ -662,6 +672,14 @@ def _execute(p, s, res):
             _violate(res, "unexpected_return_value", si, {"returned": repr(r)})
         # ---- no needless blocking / time-outs -----------------------------------------------
         if r is None:
+            # something that had become deliverable before the request's last wait began must have woken it
+            woke = [n for n in M.ts_completed if M.ts_completed_seq.get(n, 1 << 60) < last_select_seq[0]]
+            if woke and not deliv:
+                _violate(res, "timed_out_while_threadsafe_event_deliverable", si,
+                         {"serials": woke, "timeout": timeout, "waited": round(now - start, 9)})
+            if len(s.tty.inq) and M.arrival_seq is not None and M.arrival_seq < last_select_seq[0] and not deliv \
+                    and not cfg["split"] and world.probes.get("select_blocked", 0) > sel0:
+                _violate(res, "timed_out_while_bytes_unread", si, {"unread": len(s.tty.inq), "timeout": timeout})
             if deliv:
                 _violate(res, "returned_none_while_deliverable", si, {"deliverable": deliv, "timeout": timeout,
                                                                       "waited": round(now - start, 9)})
@@ -691,6 +709,14 @@ def _execute(p, s, res):
                 world.probe("two_spurious_in_one_request")
         return data
     kernel.read = read_obs
+    orig_select = kernel.select
+    last_select_seq = [0]
+
+    def select_obs(r, w, x, timeout=None):
+        if world.current is world.main:
+            last_select_seq[0] = world.log.n
+        return orig_select(r, w, x, timeout)
+    kernel.select = select_obs
 
     sys.settrace(tracer)
     inp.__enter__()
@@ -717,6 +743,8 @@ def _execute(p, s, res):
                         world.probe("threshold_none_burst_gt_read_size")
                     world.log.add("arrive", data)
                     note_arrival(data)
+                    if not len(s.tty.inq):
+                        M.arrival_seq = world.log.n
                     kernel.arrive(s.fd, data)
                 elif op == "unget":
                     data = bytes.fromhex(st["data"])
@@ -774,6 +802,16 @@ def _execute(p, s, res):
                     world.log.add("drain_stops_with_incomplete_tail", len(M.entered) - M.pos)
                     break
                 pos_before, ret_before = M.pos, len(M.returned_serials)
+                now_deliv = M.q_events or M.ts_completed or len(s.tty.inq) or M.pos < len(M.entered)
+                if not now_deliv and not alive and (world.env or M.sched) and rounds % 4:
+                    # nothing to fetch right now: the app does other work until the next thing is due
+                    nxt = []
+                    if world.env:
+                        nxt.append(world.env[0][0])
+                    if M.sched:
+                        nxt.append(min(w for w, _n in M.sched) + 1e-6)
+                    if min(nxt) > world.now:
+                        world.block_until(lambda: False, min(nxt), "sleep")
                 do_send(-1 - rounds, 0.05 if (alive or world.env or M.sched) else 0, True)
                 if M.pos == pos_before and len(M.returned_serials) == ret_before and not res["violation"]:
                     # nothing came out: the app does something else for a moment (a clock that stands
@@ -807,6 +845,7 @@ def _execute(p, s, res):
     finally:
         sys.settrace(None)
         kernel.read = orig_read
+        kernel.select = orig_select
         try:
             inp.__exit__(None, None, None)
         except (Quiescent, StepCap, SimAbort):
